@@ -2,6 +2,7 @@ package sim
 
 import (
 	"fmt"
+	"os"
 	"path/filepath"
 	"strings"
 
@@ -46,15 +47,33 @@ func schedOf(policy string, seed uint64) simrt.Schedule {
 }
 
 func drawSched(r *Rng) simrt.Schedule {
+	s := simrt.Schedule{Default: "shuf"}
 	switch r.Intn(4) {
 	case 0:
-		return simrt.Schedule{Default: "asc"}
+		s.Default = "asc"
 	case 1:
-		return simrt.Schedule{Default: "desc"}
+		s.Default = "desc"
 	case 2:
-		return simrt.Schedule{Default: fmt.Sprintf("rot:%d", r.Range(1, 3))}
+		s.Default = fmt.Sprintf("rot:%d", r.Range(1, 3))
 	}
-	return simrt.Schedule{Default: "shuf", Seed: r.U64()}
+	s.Seed = r.U64()
+	// the clock gengo reads (if it reads one): a slow machine on which every callback and file-system call
+	// takes seconds, a clock that jumps, a frozen one - or the machine's own
+	switch r.Intn(6) {
+	case 0, 1:
+		s.Clock = "slow:2500"
+	case 2:
+		s.Clock = "jumpy"
+	case 3:
+		s.Clock = "slow:40"
+	}
+	if s.Default != "shuf" && s.Clock != "jumpy" {
+		s.Seed = 0
+	}
+	if c := os.Getenv("VERIF_FORCE_CLOCK"); c != "" {
+		s.Clock = c // debugging aid
+	}
+	return s
 }
 
 type histWorld struct {
